@@ -462,6 +462,9 @@ func (e *esdtNFTMultiTransfer) addNFTToDestination(
 			return ErrWrongNFTOnDestination
 		}
 		esdtDataToTransfer.Value.Add(esdtDataToTransfer.Value, currentESDTData.Value)
+	} else {
+		// fungible entries carry no metadata: the destination keeps what it already holds
+		esdtDataToTransfer.Value.Add(esdtDataToTransfer.Value, currentESDTData.Value)
 	}
 
 	_, err = saveESDTNFTToken(userAccount, esdtTokenKey, esdtDataToTransfer, e.marshalizer, e.pauseHandler, isReturnCallWithError)
